@@ -226,11 +226,12 @@ def run_kani(unit_name, repo='/repo', tier='quick', jobs=6, timeout=1500, only=N
             r = res[full[0]]
             r['meta'] = h
             out['harnesses'][h['name']] = r
-            if r.get('covers') is not None and r['covers_sat'] != r['covers']:
-                out['trouble'].append('harness %s: vacuity: only %d of %d cover properties satisfied' % (h['name'], r['covers_sat'], r['covers']))
-            if h.get('covers') and int(h['covers']) != (r.get('covers') or 0):
-                out['trouble'].append('harness %s: expected %s cover properties, Kani reported %s' % (h['name'], h['covers'], r.get('covers')))
             if r['status'] == 'SUCCESSFUL':
+                # vacuity guard applies to passing harnesses only (after a failed assertion, later covers are moot)
+                if r.get('covers') is not None and r['covers_sat'] != r['covers']:
+                    out['trouble'].append('harness %s: vacuity: only %d of %d cover properties satisfied' % (h['name'], r['covers_sat'], r['covers']))
+                if h.get('covers') and int(h['covers']) != (r.get('covers') or 0):
+                    out['trouble'].append('harness %s: expected %s cover properties, Kani reported %s' % (h['name'], h['covers'], r.get('covers')))
                 continue
             real = [c for c in r['failed_checks'] if not any(p.search(c['desc']) for p in IGNORED_CHECK_PATTERNS)]
             ignored = [c for c in r['failed_checks'] if c not in real]
